@@ -92,6 +92,8 @@ def run_engine_k(prop, tier, seed, only=None):
     files = required_files(sel)
     caps = meta.get("caps", {})
     cap_s = caps.get(tier, {}).get("timeout_s", 600 if tier == "quick" else 3600)
+    if os.environ.get("VERIF_CAP_S"):
+        cap_s = int(os.environ["VERIF_CAP_S"])
     mem_gb = caps.get(tier, {}).get("mem_gb", 10 if tier == "quick" else 14)
     jobs = caps.get(tier, {}).get("jobs", 12)
     stubbing = any("kani::stub" in open(os.path.join(common.OVERLAY, f)).read() for f in files)
@@ -114,6 +116,9 @@ def run_engine_k(prop, tier, seed, only=None):
         results, build_ok, raw, wall, seeded = kani.run_kani(sc, sel, cap_s, mem_gb, jobs, stubbing=stubbing)
         out["wall"] += wall
         out["seeded_deps"] = seeded
+        if not build_ok:
+            os.makedirs(os.path.join(common.VERIF, "logs"), exist_ok=True)
+            open(os.path.join(common.VERIF, "logs", "%s.%s.build%d.log" % (prop, tier, attempt)), "w").write(raw[-40000:])
         if build_ok or attempt >= 3:
             break
         # a harness file that no longer compiles against /repo's tree (e.g. a private API changed) must not
